@@ -412,6 +412,44 @@ static void run_surr(uint64_t idx, Ctx& c) {
     if (idx % 7 == 0) c.sample("{\"first_unit\":" + std::to_string(u1) + ",\"be\":" + std::to_string(be) + "}");
 }
 
+// ------------------------------------------------------------------------------------------ tiny external entities
+// The document entity can never be shorter than "<a/>"; a second parsed entity can.  External general entities (content) and external DTD subsets
+// whose whole payload is 1..8 characters, in UTF-8 / UTF-16LE / UTF-16BE / UCS-4LE / UCS-4BE, without BOM (UTF-8 only) and with BOM: the content
+// delivered must be the payload, the same with and without byte-order mark.
+struct TinyCase { int enc; bool bom; int payload; int site; };
+static std::vector<TinyCase> g_tiny;
+static std::vector<Doc> g_tinyPayload;
+static void init_tiny() {
+    const char* P[] = {"x", "hi", "\xC3\xA9", "abc", "a\xE2\x82\xAC", "abcd", "abcde", "abcdef", "abcdefg", "\xF0\x90\x80\x80z", " ", "\n\n"};
+    for (const char* p : P) g_tinyPayload.push_back(D(p));
+    const char* encs[] = {"UTF-8", "UTF-16LE", "UTF-16BE", "UCS-4LE", "UCS-4BE"};
+    for (const char* e : encs) { int ei = enc_index(e); if (ei < 0) continue; for (int b = 0; b < 2; b++) { if (!b && strcmp(e, "UTF-8")) continue; for (int p = 0; p < (int)g_tinyPayload.size(); p++) for (int site = 0; site < 2; site++) g_tiny.push_back({ei, b != 0, p, site}); } }
+}
+static void run_tiny(uint64_t idx, Ctx& c) {
+    const TinyCase& k = g_tiny[idx];
+    const Doc& pay = g_tinyPayload[k.payload];
+    bool blank = true; for (uint32_t cp : pay) if (cp != ' ' && cp != '\n') blank = false;
+    if ((k.site == 1) != blank) { c.count("tiny_skipped_payload_not_for_site"); return; }   // site 1 (external subset) takes the blank payloads, site 0 (content) the others
+    Bytes ent; encode_doc(k.enc, pay, ent);
+    if (k.bom) ent = bom_of(k.enc) + ent;
+    g_vfs->clear();
+    g_vfs->put(k.site == 0 ? "/v/e.ent" : "/v/e.dtd", ent);
+    std::string main = k.site == 0 ? "<!DOCTYPE r [<!ENTITY e SYSTEM 'e.ent'>]><r>&e;</r>" : "<!DOCTYPE r SYSTEM 'e.dtd'><r>ok</r>";
+    Config cfg; cfg.api = SAX2; cfg.scanner = IG; cfg.ns = false; cfg.val = 0; cfg.loadExtDTD = true;
+    ParseIO io; io.bytes = main;
+    ParseResult r = parse_xerces(cfg, io);
+    // expected: the same document with the payload inline
+    std::string inl; { Bytes u8; encode_doc(enc_index("UTF-8"), pay, u8); inl = k.site == 0 ? "<r>" + std::string(u8) + "</r>" : "<r>ok</r>"; }
+    g_vfs->clear();
+    ParseIO io2; io2.bytes = inl; ParseResult want = parse_xerces(cfg, io2);
+    auto text = [](const ParseResult& x) { std::string t; for (auto& l : x.d.lines) if (l.compare(0, 2, "T|") == 0) t += l.substr(2); return t; };
+    std::string where = std::string("\"encoding\":") + jstr(ENCS[k.enc].xname) + ",\"bom\":" + (k.bom ? "true" : "false") + ",\"payload_hex\":" + jstr(hexs(ent)) + ",\"site\":" + jstr(k.site == 0 ? "external general entity" : "external DTD subset");
+    c.count("tiny_entities_parsed");
+    if (r.fatals || !r.exc.empty()) c.violation("tiny-entity-rejected", where + ",\"errors\":" + jstr(r.errors.empty() ? r.exc : r.errors[0]));
+    else if (text(r) != text(want)) c.violation("tiny-entity-content", where + ",\"expected\":" + jstr(text(want)) + ",\"observed\":" + jstr(text(r)));
+    else c.count(k.bom ? "tiny_with_bom_ok" : "tiny_without_bom_ok");
+}
+
 int main(int argc, char** argv) {
     Args a(argc, argv);
     std::string space = a.str("space", "docs");
@@ -440,6 +478,11 @@ int main(int argc, char** argv) {
         R.total = g_cases.size(); R.fn = run_docs;
         R.describe = [](uint64_t i) { return "{\"doc\":" + std::to_string(g_cases[i].doc) + ",\"enc\":" + jstr(ENCS[g_cases[i].enc].xname) + ",\"decl\":" + jstr(g_cases[i].declname) + "}"; };
         R.extra_json = "\"bounds\":" + jstr(std::to_string(g_docs.size()) + " documents x " + std::to_string(g_encsel.size()) + " encodings x BOM x declaration variants");
+    } else if (space == "tinyent") {
+        init_tiny();
+        R.total = g_tiny.size(); R.fn = run_tiny;
+        R.describe = [](uint64_t i) { return "{\"enc\":" + jstr(ENCS[g_tiny[i].enc].xname) + ",\"bom\":" + std::to_string(g_tiny[i].bom) + ",\"payload\":" + std::to_string(g_tiny[i].payload) + "}"; };
+        R.extra_json = "\"bounds\":\"12 payloads of 1..8 characters x 5 encodings x BOM x {external general entity, external subset}\"";
     } else if (space == "bad") {
         init_bad();
         R.total = g_badcases.size(); R.fn = run_bad;
